@@ -176,7 +176,7 @@ def build_fresh_twin(world_cls, xd, spec, model, source_world, salt=""):
             ttar = set()
             for t in ft["targets"]:
                 ttar.update(w2.ref(p) for p in prefixes(t))
-            act = FtAction(w2.rootobj, tid[1], ft["deps"], ft["targets"], ft["coefs"])
+            act = FtAction(w2.basecont, tid[1], ft["deps"], ft["targets"], ft["coefs"])
             task = T.FunctionTask("f:%s" % tid[1], act, ttar, tdeps)
             mgr.register(task)
             w2.ftasks[tid[1]] = task
